@@ -41,6 +41,11 @@ def run(ctx):
     directed = json.load(open(os.path.join(g.dir, "directed.json")))
     stim += [{"ev": h, "all": True} for h in directed]
     ctx.cov["directed_interleavings"] = len(directed)
+    # a peer that misbehaves and then behaves: garbage (or a truncated / oversize datagram), then proper requests from the same address
+    for cls in ("garbage", "trunc", "oversize"):
+        stim.append({"ev": [{"e": "good", "p": 1, "c": "req"}, {"e": "bad", "p": 3, "c": cls}, {"e": "bad", "p": 3, "c": "wellformed"},
+                            {"e": "good", "p": 1, "c": "req"}, {"e": "bad", "p": 3, "c": "wellformed"}, {"e": "bad", "p": 3, "c": cls},
+                            {"e": "good", "p": 2, "c": "req"}, {"e": "bad", "p": 3, "c": "wellformed"}], "all": True})
     spath = os.path.join(ctx.work, "stimuli.ndjson")
     vf.write_ndjson(spath, stim)
     out = os.path.join(ctx.work, "traces.ndjson")
